@@ -20,11 +20,11 @@ add_viol()  { viols=$(jq -c --arg s "$1" --arg d "$2" '. + [{"sig":$s,"detail":$
 
 case "$id" in
   C05) asan=1; tsan=1; miri="ownedbytes"; vg=0;;
-  C02|C04|C10) asan=0; tsan=1; miri=""; vg=0;;
+  C02|C04|C10|C18) asan=0; tsan=1; miri=""; vg=0;;
   C06) asan=1; tsan=0; miri="topn"; vg=0;;
   C07) asan=1; tsan=0; miri="stacker bitpacker"; vg=0;;
   C08) asan=1; tsan=0; miri="bitpacker optidx"; vg=0;;
-  C09) asan=1; tsan=0; miri=""; vg=1;;
+  C09) asan=1; tsan=1; miri=""; vg=1;;
   C13|C15|C16|C19) asan=1; tsan=0; miri=""; vg=0;;
   *) asan=0; tsan=0; miri=""; vg=0;;
 esac
